@@ -145,6 +145,13 @@ func genHistory(prop string, seed uint64, index int, tier string) *HScenario {
 			if lens[h] > 200 && k > 100 {
 				k = 100
 			}
+			if lens[h] <= 64 && or.p(1, 12) {
+				// very many calls: thresholds and counters that only move after thousands of uses
+				k = 5000
+				if tier == "thorough" && or.p(1, 4) {
+					k = 70000 // past a 16-bit wrap
+				}
+			}
 			sc.Steps = append(sc.Steps, HStep{Kind: "burst", V: v, Op: &op, K: k})
 		case x < 82:
 			sc.Steps = append(sc.Steps, HStep{Kind: "gc", K: or.n(8) / 7})
